@@ -1,11 +1,12 @@
 #!/bin/bash
-# regress_seeds.sh [jobs]  — re-runs, for every kept seeded change under /verif/seeded, the
+# regress_seeds.sh [jobs] [seed-id regex] [output file]  — re-runs, for every kept seeded change under /verif/seeded, the
 # registered quick check of the property it breaks against a scratch worktree of /repo with the
 # patch applied, and prints one line per seed: "<seed> <property> exit=<code>" (1 = reported).
 # Scratch worktrees live under /tmp and are removed again; /repo itself is not touched.
 set -u
 JOBS=${1:-4}
-OUT=/verif/seeded/REGRESSION.txt
+FILTER=${2:-.}
+OUT=${3:-/verif/seeded/REGRESSION.txt}
 TMP=$(mktemp -d /tmp/verif-regress-XXXX)
 export GOFLAGS=-mod=mod GOPROXY=off
 one() {
@@ -24,6 +25,6 @@ one() {
   git -C /repo worktree remove --force $wt 2>/dev/null; rm -rf $ev
 }
 export -f one; export TMP
-ls /verif/seeded | grep -E '^C[0-9][0-9]-[A-Z]$' | xargs -P $JOBS -I{} bash -c 'one {}' | sort | tee $OUT
+ls /verif/seeded | grep -E '^C[0-9][0-9]-[A-Z]$' | grep -E "$FILTER" | xargs -P $JOBS -I{} bash -c 'one {}' | sort | tee $OUT
 rm -rf $TMP
 echo "not reported: $(grep -v neutralised $OUT | grep -vc 'exit=1 ')"
